@@ -175,14 +175,75 @@ class Case:
         s.set("timeout", int(self.timeout_ms))
         return s
 
+    def _probe(self, assertions, attempts=12):
+        """Counterexample search for a query the solver does not decide quickly: every free constant is pinned to a
+        random small rational / integer and the *solver* evaluates the assertions under that pinning (a ground query).
+        Used only to find models (which are then replayed on the real code), never to discharge an obligation."""
+        consts = {}
+        for a in assertions:
+            stack, seen = [a], set()
+            while stack:
+                u = stack.pop()
+                i = u.get_id()
+                if i in seen:
+                    continue
+                seen.add(i)
+                if z3.is_const(u):
+                    if u.decl().kind() == z3.Z3_OP_UNINTERPRETED:
+                        consts[i] = u
+                else:
+                    stack.extend(u.children())
+        if not consts or len(consts) > 5000:
+            return None
+        rnd = self.__dict__.setdefault("_probe_rng", np.random.default_rng(self.seed + 977))
+        for k in range(attempts):
+            s = z3.Solver()
+            s.set("timeout", 3000)
+            for a in assertions:
+                s.add(a)
+            for v in consts.values():
+                if z3.is_real(v):
+                    num, den = int(rnd.integers(1, 9)), int(rnd.integers(1, 5))
+                    if k % 3 == 2 and rnd.random() < 0.5:
+                        num = -num
+                    s.add(v == z3.RealVal(Fraction(num, den)))
+                elif z3.is_int(v):
+                    s.add(v == int(rnd.integers(-2 if k % 3 == 2 else 0, 7)))
+            t0 = time.time()
+            r = s.check()
+            self.solver_s += time.time() - t0
+            self.queries += 1
+            if r == z3.sat:
+                m = s.model()
+                if all(z3.is_true(m.eval(a, model_completion=True)) for a in assertions):
+                    self.extra["models_from_pinned_probe"] = self.extra.get("models_from_pinned_probe", 0) + 1
+                    return m
+        return None
+
     def _check(self, assertions):
-        s = self._solver()
+        unknowns = self.__dict__.setdefault("_unknowns", 0)
+        full = int(self.timeout_ms) if unknowns < 3 else min(int(self.timeout_ms), 10000)  # after 3 undecided queries the case is inconclusive anyway: stop spending the full budget per entry
+        first = min(full, 4000)
+        s = z3.Solver()
+        s.set("timeout", first)
         for a in assertions:
             s.add(a)
         t0 = time.time()
         r = s.check()
         self.solver_s += time.time() - t0
         self.queries += 1
+        if r == z3.unknown and first < full:
+            m = self._probe(assertions)
+            if m is not None:
+                return "sat", m, s
+            s = z3.Solver()
+            s.set("timeout", full)
+            for a in assertions:
+                s.add(a)
+            t0 = time.time()
+            r = s.check()
+            self.solver_s += time.time() - t0
+            self.queries += 1
         if r == z3.sat:
             m = s.model()
             for a in assertions:
@@ -198,10 +259,11 @@ class Case:
         # unknown: second opinion from z3 4.8.12 / cvc5 on the dumped query
         smt = s.to_smt2()
         for fn in (external_z3, external_cvc5):
-            r2 = fn(smt, self.timeout_ms)
+            r2 = fn(smt, full)
             if r2 == "unsat":
                 self.notes.append("a z3-5.1 'unknown' was decided unsat by " + fn.__name__)
                 return "unsat", None, s
+        self._unknowns = unknowns + 1
         return "unknown", None, s
 
     def _vars(self, t):
